@@ -253,7 +253,7 @@ def enc(v):
     if isinstance(v, _Obj):
         return f"obj:{v._k}"
     if isinstance(v, _Acc):
-        return f"acc:{v.k}:" + ",".join(enc(x) for x in v.items)
+        return f"acc:{v.k}"        # identity only: the object is mutable, streams hold it by reference
     if isinstance(v, (tuple, list)):
         return "[" + ",".join(enc(x) for x in v) + "]"
     if isinstance(v, type):
